@@ -50,6 +50,7 @@ fn gen_params(a: &Args) -> GenParams {
         perm: a.flag("perm"),
         nsym: a.0.get("nsym").map(|v| v.parse().unwrap()).unwrap_or(usize::MAX),
         setnext: a.flag("setnext"),
+        statewise: a.flag("statewise"),
     }
 }
 
